@@ -25,7 +25,9 @@ type ReplayFn<'a> = &'a dyn Fn(&str, Value) -> Result<(), String>;
 pub fn replay_corpus(ctx: &Ctx, f: ReplayFn) -> vcore::SubReport {
     let mut rep = vcore::SubReport::new("replay-corpus");
     for path in vcore::replay_files(&ctx.prop) {
-        let Ok(rf) = vcore::load_replay(&path) else { continue };
+        let Ok(rf) = vcore::load_replay(&path) else {
+            continue;
+        };
         if rf.property != ctx.prop {
             continue;
         }
@@ -70,7 +72,11 @@ fn main() {
     if args[0] == "--sub-json" {
         // `progen --sub-json <C12|C14> <tier>`: one sub-report as JSON (used by the rt engine)
         let which = args.get(1).cloned().unwrap_or_default();
-        let tier = if args.get(2).map(|s| s == "thorough").unwrap_or(false) { Tier::Thorough } else { Tier::Quick };
+        let tier = if args.get(2).map(|s| s == "thorough").unwrap_or(false) {
+            Tier::Thorough
+        } else {
+            Tier::Quick
+        };
         let ctx = Ctx::new(&which, tier);
         let rep = cfail::run(&ctx, &which);
         println!("{}", serde_json::to_string(&rep.to_json()).unwrap());
@@ -88,7 +94,11 @@ fn main() {
         };
         let code = match replay_case(&rf.property, &rf.sub, rf.case.clone()) {
             Ok(()) => {
-                println!("replay {}: property {} holds on this input", path.display(), rf.property);
+                println!(
+                    "replay {}: property {} holds on this input",
+                    path.display(),
+                    rf.property
+                );
                 EXIT_OK
             }
             Err(r) if r.starts_with("HARNESS") => {
@@ -97,13 +107,22 @@ fn main() {
             }
             Err(r) => {
                 println!("  {r}");
-                println!("VIOLATION property={} replay={}", rf.property, path.display());
+                println!(
+                    "VIOLATION property={} replay={}",
+                    rf.property,
+                    path.display()
+                );
                 EXIT_VIOLATION
             }
         };
         std::process::exit(code);
     }
-    let tier = match args.get(1).cloned().or_else(|| std::env::var("VERIF_TIER").ok()).as_deref() {
+    let tier = match args
+        .get(1)
+        .cloned()
+        .or_else(|| std::env::var("VERIF_TIER").ok())
+        .as_deref()
+    {
         Some("thorough") => Tier::Thorough,
         Some("quick") | None => Tier::Quick,
         Some(_) => usage(),
